@@ -50,7 +50,11 @@ def real_formula(cond: str, names):
     # its own detections
     prime = {n: {"g_" + str(i): "w"} for i, n in enumerate(names)}
     try:
-        SigmaDetections.from_dict(dict(prime, condition=cond)).parsed_condition[0].parsed
+        pd = SigmaDetections.from_dict(dict(prime, condition=cond))
+        pd.parsed_condition[0].parsed
+        # ... and a caller that asks for the unprocessed tree (as the validators do) and resolves it
+        # itself owns that tree: working on it must not change what later rules get
+        pd.parsed_condition[0].parse(False).postprocess(pd)
     except SigmaConditionError:
         pass
     d = SigmaDetections.from_dict(dict(dets, condition=cond))
@@ -206,12 +210,12 @@ def c02a_names(k: int, c: int, ax: bool, ap: bool) -> bool:
 
 
 # ---------------------------------------------------------------- a3. selectors
-CAND = ["s1", "sel", "s_1", "_x", "_s1", "x1"]
+CAND = ["s1", "sel", "s_1", "_x", "_s1", "x1", "s-1"]
 PATTERNS = ["s*", "*1", "s*1", "*", "them", "_*", "_x*", "*x", "s**", "*s*", "s*l", "sel", "s_*", "*_*", "x*", "_s*", "**", "s1"]
 QUANT = ["1", "any", "all"]
 
 
-def c02a_selectors(pt: int, q: int, m0: bool, m1: bool, m2: bool, m3: bool, m4: bool, m5: bool, form: int, a0: bool, a1: bool, a2: bool, a3: bool, a4: bool, a5: bool, az: bool) -> bool:
+def c02a_selectors(pt: int, q: int, m0: bool, m1: bool, m2: bool, m3: bool, m4: bool, m5: bool, m6: bool, form: int, a0: bool, a1: bool, a2: bool, a3: bool, a4: bool, a5: bool, a6: bool, az: bool) -> bool:
     """
     pre: P("PT0", 0) <= pt < min(len(PATTERNS), P("PT0", 0) + 3)
     pre: 0 <= q < 3
@@ -226,9 +230,9 @@ def c02a_selectors(pt: int, q: int, m0: bool, m1: bool, m2: bool, m3: bool, m4: 
     for j in range(3):
         if q == j:
             qu = QUANT[j]
-    ms = [m0, m1, m2, m3, m4, m5]
+    ms = [m0, m1, m2, m3, m4, m5, m6]
     names = ["z"]
-    for i in range(6):
+    for i in range(7):
         if ms[i]:
             names.append(CAND[i])
     ff = 0
@@ -238,7 +242,7 @@ def c02a_selectors(pt: int, q: int, m0: bool, m1: bool, m2: bool, m3: bool, m4: 
     sel = f"{qu} of {pat}"
     cond = [sel, f"z and not {sel}", f"({sel}) or z"][ff]
     env = {"z": az}
-    for i, a in enumerate([a0, a1, a2, a3, a4, a5]):
+    for i, a in enumerate([a0, a1, a2, a3, a4, a5, a6]):
         env[CAND[i]] = a
     return fin(decide(cond, names, env))
 
